@@ -239,6 +239,21 @@ func keyCases(r *rand.Rand, wrap func(keys A) interface{}) []pcase {
 			k["publicKeyJwk"] = b
 		})
 	}
+	// the key type name is compared as written: "RSA" in another letter case is some other type,
+	// judged by crv / x (every shape, every run)
+	for j, v := range []struct {
+		jwk   M
+		valid bool
+	}{{M{"kty": "rsa", "n": "AQAB", "e": "AQAB"}, false}, {M{"kty": "Rsa", "n": "AQAB", "e": "AQAB"}, false},
+		{M{"kty": "rsa", "crv": "P-256", "x": "AQ", "y": "Ag"}, true}, {M{"kty": "RSA ", "crv": "P-256", "x": "AQ"}, true},
+		{M{"kty": "RSA", "n": "AQAB", "e": "AQAB"}, true}, {M{"kty": "RSA", "crv": "P-256", "x": "AQ"}, false},
+		{M{"kty": "RSA", "n": "AQAB", "e": "AQAB", "crv": "", "x": ""}, true}, {M{"kty": "ec", "crv": "P-256", "x": "AQ", "y": "Ag"}, true}} {
+		k := copyM(k1)
+		k["type"] = "JsonWebKey2020"
+		delete(k, "publicKeyBase58")
+		k["publicKeyJwk"] = v.jwk
+		out = append(out, pcase{fmt.Sprintf("key-jwk-kty-spelling-%d", j), wrap(A{k}), v.valid})
+	}
 	mut("key-jwk-not-object", func(k M) { delete(k, "publicKeyBase58"); k["publicKeyJwk"] = "jwk" })
 	mut("key-base58-with-jsonwebkey2020", func(k M) {
 		k["type"] = "JsonWebKey2020"
